@@ -68,6 +68,11 @@ func (e *Engine) taggedFuncs(prop string) (keys []string, lemmas []*Lemma) {
 				tagged = true
 			}
 		}
+		// C08 (no race, no panic) is about every function on the public API paths: its cone
+		// is every contract of the cache package (guard, rank and no-panic obligations of all)
+		if prop == "C08" && strings.HasPrefix(k, ".:") {
+			tagged = true
+		}
 		if tagged {
 			keys = append(keys, k)
 		}
